@@ -203,7 +203,7 @@ func (fr *Frame) invoke(ins ssa.Instruction, recv *Val, it types.Type, m *types.
 func (fr *Frame) callFunc(ins ssa.Instruction, fn *ssa.Function, args []*Val, binds []*Val) *Val {
 	vc := fr.vc
 	name := shortFuncName(fn.String())
-	if c := vc.w.contracts[name]; c != nil && binds == nil && vc.specDepth == 0 {
+	if c := vc.w.contracts[name]; c != nil && binds == nil && (vc.specDepth == 0 || (!c.Inline && len(c.Assigns) == 0)) {
 		if !c.Inline && (vc.w.unroll == 0 || c.Trusted || fn.Blocks == nil) {
 			vc.used[name] = true
 			return fr.applyContract(ins, fn, c, args)
@@ -473,10 +473,14 @@ func (fr *Frame) assignLocs(assigns []Clause, scope map[string]*Val, old *State)
 			vc.specDepth++
 			saveReach, saveSt := fr.reach, fr.st
 			defer func() { vc.specDepth--; fr.reach, fr.st = saveReach, saveSt }()
-			if n.Kind == "call" && n.Args[0].Kind == "ident" && n.Args[0].Name == "elems" {
+			if n.Kind == "call" && n.Args[0].Kind == "ident" && (n.Args[0].Name == "elems" || n.Args[0].Name == "capelems") {
 				x := env.eval(n.Args[1])
 				et := elemOf(x.T)
-				locs = append(locs, assignLoc{lo: x.L[0], hi: add(x.L[0], mul(x.L[1], intLit(int64(slots(et))))), elemT: et})
+				cnt := x.L[1]
+				if n.Args[0].Name == "capelems" {
+					cnt = x.L[2] // the whole backing array up to the capacity
+				}
+				locs = append(locs, assignLoc{lo: x.L[0], hi: add(x.L[0], mul(cnt, intLit(int64(slots(et))))), elemT: et})
 				return
 			}
 			if n.Kind == "slice" {
@@ -524,6 +528,7 @@ func (fr *Frame) havocAssigns(assigns []Clause, scope map[string]*Val, old *Stat
 				fr.st.heap[k] = vc.fresh(k, "(Array Int "+leafByKey[k].Sort+")")
 				vc.logStore(k, "unknown!999999999", "")
 				vc.staticFrame(k, fr.st.heap[k], old)
+				fr.st.epoch[k] = [2]string{fr.st.heap[k], fr.st.wm}
 			}
 			for _, g := range []string{"$alloc", "$elems"} {
 				fr.st.ghost[g] = vc.fresh("g_"+sanitize(g), "Int")
